@@ -116,6 +116,19 @@ def gen_case(ctx, k):
             reacs.append({"eq": eq, "k+": stoch_gen.env_value(rng, net["environments"], [Fraction(1, 4), Fraction(1, 2), 1]),
                           "k-": stoch_gen.env_value(rng, net["environments"], [Fraction(1, 4), Fraction(1, 8), 0])})
         net["reactions"] = reacs
+    if kind == "graph" and k % 6 in (1, 3):
+        # a hub: one node with MORE than six edges (star / wheel), heterogeneous volumes, diffusing species
+        leaves = rng.randint(7, 9)
+        hs = [rng.choice([Fraction(1), Fraction(1, 2), Fraction(2), Fraction(3, 2)]) for _ in range(leaves + 1)]
+        nodes = [{"volume": float(hh ** 3), "environment": rng.randrange(nenv)} for hh in hs]
+        edges = [{"nodes": [0, j] if rng.random() < 0.5 else [j, 0], "surface": float(Fraction(rng.randint(1, 8), 8)),
+                  "distance": float(Fraction(rng.randint(1, 8), 4))} for j in range(1, leaves + 1)]
+        if rng.random() < 0.5:
+            edges += [{"nodes": [j, j % leaves + 1], "surface": 0.5, "distance": 1.0} for j in range(1, leaves + 1)]
+        space = {"type": "graph", "nodes": nodes, "edges": edges}
+        info = {"kind": "graph", "n": leaves + 1, "edge": hs, "nedges": len(edges)}
+        for sp_ in net["species"]:
+            sp_["D"] = float(rng.choice([0.25, 0.5, 1, 2]))
     if kind == "grid" and k % 6 in (0, 2):
         # a genuinely three-dimensional grid with at least one reflecting axis of length >= 2, diffusing species
         w, h, d = rng.choice([(1, 1, 3), (2, 1, 2), (1, 2, 2), (1, 1, 2), (2, 1, 3), (1, 2, 3)])
@@ -222,6 +235,19 @@ def gen_case(ctx, k):
             reacs.append({"eq": eq, "k+": stoch_gen.env_value(rng, net["environments"], [Fraction(1, 4), Fraction(1, 2), 1]),
                           "k-": stoch_gen.env_value(rng, net["environments"], [Fraction(1, 4), Fraction(1, 8), 0])})
         net["reactions"] = reacs
+    if kind == "graph" and k % 6 in (1, 3):
+        # a hub: one node with MORE than six edges (star / wheel), heterogeneous volumes, diffusing species
+        leaves = rng.randint(7, 9)
+        hs = [rng.choice([Fraction(1), Fraction(1, 2), Fraction(2), Fraction(3, 2)]) for _ in range(leaves + 1)]
+        nodes = [{"volume": float(hh ** 3), "environment": rng.randrange(nenv)} for hh in hs]
+        edges = [{"nodes": [0, j] if rng.random() < 0.5 else [j, 0], "surface": float(Fraction(rng.randint(1, 8), 8)),
+                  "distance": float(Fraction(rng.randint(1, 8), 4))} for j in range(1, leaves + 1)]
+        if rng.random() < 0.5:
+            edges += [{"nodes": [j, j % leaves + 1], "surface": 0.5, "distance": 1.0} for j in range(1, leaves + 1)]
+        space = {"type": "graph", "nodes": nodes, "edges": edges}
+        info = {"kind": "graph", "n": leaves + 1, "edge": hs, "nedges": len(edges)}
+        for sp_ in net["species"]:
+            sp_["D"] = float(rng.choice([0.25, 0.5, 1, 2]))
     if kind == "grid" and k % 6 in (0, 2):
         # a genuinely three-dimensional grid with at least one reflecting axis of length >= 2, diffusing species
         w, h, d = rng.choice([(1, 1, 3), (2, 1, 2), (1, 2, 2), (1, 1, 2), (2, 1, 3), (1, 2, 3)])
@@ -341,6 +367,17 @@ def run(ctx):
                 # (quantity unit left at molecule here: fractional amounts would not survive the unit round trip bit for bit)
                 c["units"] = {"time": rng.choice(["ms", "min"]), "quantity": "molecule"}
             cases.append(c)
+    # explicit resampling of the initial state (documented for every engine): sample 0 is the PROCESSED state, so the
+    # totals of sample 0 and of all later samples agree
+    for b in base[:ctx.n(10, 80)]:
+        for option in ("euler", "tauleap", "gillespie"):
+            c = dict(b)
+            c["option"] = option
+            c["mode"] = rng.choice(["Poisson", "redist"])
+            c["state"] = [v + rng.choice([0.0, 0.5, 0.25, 0.3, 1.75]) for v in b["state"]]
+            c["dt"] = 1 / 1024 if option == "euler" else 1 / 2048
+            c["max_iter"] = {"euler": 20, "tauleap": 15, "gillespie": 40}[option]
+            cases.append(c)
     # successive simulations on ONE engine object: same species labels and reaction count, other stoichiometry
     rng = ctx.rng
     for b in base[:ctx.n(8, 60)]:
@@ -398,6 +435,15 @@ def run(ctx):
                 ctx.count("engine_object_reused")
             if case.get("mode") == "none":
                 ctx.count("none_mode_fractional_state")
+            if case.get("mode") in ("Poisson", "redist"):
+                ctx.count("resampled_initial_state_" + option)
+            if case["kind"] == "graph" and arr["space"]["kind"] == "graph":
+                deg = {}
+                for (i_, j_, _s, _d) in arr["space"]["edges"]:
+                    deg[i_] = deg.get(i_, 0) + 1
+                    deg[j_] = deg.get(j_, 0) + 1
+                if deg and max(deg.values()) > 6:
+                    ctx.count("graphs_with_hub_degree_gt_6")
             if case.get("units"):
                 ctx.count("nondefault_units")
             ctx.count("vectors_%d" % min(len(vectors), 4))
